@@ -552,7 +552,7 @@ impl Runner {
         let mut files = Vec::new();
         for (i, src) in sc.images.iter().enumerate() {
             let backing = if i + 1 < n {
-                Some(format!("layer{}", i + 1))
+                Some(format!("layer{}-a-backing-file-name-of-some-length.qcow2", i + 1))
             } else {
                 None
             };
